@@ -408,3 +408,126 @@ def _constructors_ob(name, vary):
 _constructors_ob("calls", ("calls",))
 _constructors_ob("uses", ("uses",))
 _constructors_ob("types", ("types",))
+
+
+# ---------------------------------------------------------------------------------------
+# O3: the project-wide call graph (GraphManager.graph_all) agrees with the per-procedure graphs and with the declared calls
+# ---------------------------------------------------------------------------------------
+GEN_OPTS = [("generic :: combine => add_vec", ["add_vec"]), ("generic :: combine => add_vec, sub_vec", ["add_vec", "sub_vec"]),
+            ("GENERIC :: COMBINE => ADD_VEC", ["add_vec"]), ("generic, public :: combine => sub_vec", ["sub_vec"])]
+DRV_OPTS = [("call v%combine()", "combine"), ("call add_vec(v)", "add_vec"), ("call v%add_vec()", "add_vec"), ("continue", None)]
+
+
+def _pw_files(gen, drv):
+    return {"a.f90": ["module mv", "type vec", "integer :: c", "contains", "procedure :: add_vec", "procedure :: sub_vec", gen, "end type vec",
+                      "contains", "subroutine add_vec(self)", "class(vec) :: self", "end subroutine add_vec",
+                      "subroutine sub_vec(self)", "class(vec) :: self", "call add_vec(self)", "end subroutine sub_vec",
+                      "subroutine driver(v)", "type(vec) :: v", drv, "end subroutine driver", "end module mv"]}
+
+
+class _Rec3:
+    def __init__(self, *a, **k):
+        self.nodes, self.edges = [], []
+
+    def node(self, ident, **kw):
+        self.nodes.append(str(ident))
+
+    def edge(self, *a, **kw):
+        self.edges.append((str(kw.get("tail_name", a[0] if a else None)), str(kw.get("head_name", a[1] if len(a) > 1 else None))))
+
+    def attr(self, *a, **k):
+        pass
+
+
+def _pw_observe(p):
+    import ford.graphs as gr
+    oldd, oldg = gr.Digraph, gr.graphviz_installed
+    gr.Digraph, gr.graphviz_installed = _Rec3, False
+    try:
+        gm = gr.GraphManager("", "", False, False, save_graphs=False)
+        for lst in (p.types, p.procedures, p.submodprocedures, p.modules, p.submodules, p.programs, p.files, p.blockdata):
+            for e in lst:
+                gm.register(e)
+        gm.graph_all()
+        pw_nodes, pw_edges = set(gm.callgraph.dot.nodes), set(gm.callgraph.dot.edges)
+        per = {}
+        for pr in p.procedures:
+            g = getattr(pr, "callsgraph", None)
+            if g is not None:
+                per[str(pr.name).lower()] = set(g.dot.edges)
+        return pw_nodes, pw_edges, per
+    finally:
+        gr.Digraph, gr.graphviz_installed = oldd, oldg
+
+
+GSET3 = dict(proc_internals=True, graph=True, display=["public", "private", "protected"])
+
+
+def _pw_missing(obs):
+    pw_nodes, pw_edges, per = obs
+    missing = []
+    for name, edges in sorted(per.items()):
+        for (a, b) in sorted(edges):
+            if a in pw_nodes and b in pw_nodes and (a, b) not in pw_edges:
+                missing.append((name, a, b))
+    return missing
+
+
+def replay_pw(w):
+    import io, contextlib
+    import ford.sourceform as sf
+    old = sf.namelist
+    sf.namelist = sf.NameSelector()
+    try:
+        with contextlib.redirect_stdout(io.StringIO()), contextlib.redirect_stderr(io.StringIO()):
+            p = _parserh.project_concrete(_pw_files(w["generic"], w["driver"]), **GSET3)
+            obs = _pw_observe(p)
+    finally:
+        sf.namelist = old
+    missing = _pw_missing(obs)
+    generic_edges = [e for e in obs[1] if "combine" in e[0]]
+    bad = bool(missing) or len(generic_edges) != len(w["specifics"])
+    return bad, {"generic": w["generic"], "driver statement": w["driver"],
+                 "edges of a per-procedure calls graph missing from the project-wide call graph (both ends are nodes of it)": missing,
+                 "edges generic -> specific in the project-wide graph": sorted(generic_edges), "declared specifics": w["specifics"]}
+
+
+@obligation("C13", "O3.project-wide-call-graph", engine="SX(CV)", timeout=900)
+def project_wide(ctx):
+    """GraphManager.graph_all on a parsed project with a generic type-bound procedure (symbolic: one or two specifics) and a symbolic
+    call statement: every edge of a per-procedure calls graph whose two ends are nodes of the project-wide call graph is an edge of
+    it, and the generic has exactly one edge to each of its specifics"""
+    import io, contextlib
+    import ford.graphs as gr
+
+    ctx.encode_fn(gr.GraphManager.graph_all)
+    ctx.encode_fn(gr.GraphManager.register)
+    ctx.encode_fn(gr.CallGraph.add_node, "CallGraph.add_node")
+    ctx.bounds.update({"generic spellings": len(GEN_OPTS), "driver statements": len(DRV_OPTS)})
+    ctx.stubs.append("graphviz Digraph replaced by a recorder; graphviz_installed=False")
+
+    def h(E):
+        g = _CV.choice(E, "generic", GEN_OPTS)
+        d = _CV.choice(E, "driver", DRV_OPTS)
+        E.e.snapshot = lambda m: {"generic": _choice.value_in_model(m, g)[0], "specifics": _choice.value_in_model(m, g)[1],
+                                  "driver": _choice.value_in_model(m, d)[0]}
+        with contextlib.redirect_stdout(io.StringIO()), contextlib.redirect_stderr(io.StringIO()):
+            obs = _parserh.project(_pw_files(g[0], d[0]), post=_pw_observe, post_modules=(gr,), **GSET3)
+        E.reachable("graphs")
+        E.require(not _pw_missing(obs), "an edge of a per-procedure calls graph is missing from the project-wide call graph")
+        gen_edges = [e for e in obs[1] if "combine" in e[0]]
+        E.require(_choice.apply(lambda sp: len(gen_edges) == len(sp), g[1]), "the generic binding does not have one edge to each of its specifics in the project-wide call graph")
+
+    E = sym.Engine(ctx, max_paths=5000, incremental=True)
+    found = E.explore(h)
+    seen = set()
+    for (label, m, pc), snap in zip(found, E.snapshots):
+        if label in seen or not snap:
+            continue
+        seen.add(label)
+        ctx.report(label, snap, replay_pw)
+    if E.reached.get("graphs"):
+        ctx.twins += 1
+    else:
+        ctx.inconclusive.append("vacuity: no graphs built")
+    ctx.sample({"paths": E.paths})
